@@ -11,7 +11,7 @@ import (
 func init() {
 	Registry["C34"] = RuleDef{Module: ".", Run: runC34,
 		Technique:   "normal-form check of the quorum arithmetic, guard rules on the success return and on the cancellation of the lock context, ordering rules (cancel before waiting for release; key deletion only after the monitor loop ended) over the SSA of locker.try and its closures",
-		Explanation: "Decides client-side necessary conditions only: (R34a) the number of keys is 2*majority-1 for the very majority that the counters are compared with, so two holders cannot both own a majority; (R34b) try reports success only when the deadline timer had not fired and fewer than a majority of acquisitions failed, the acquisition loop runs while both counters are below the majority and every iteration bumps exactly one of them by 1, the remaining keys up to totalcnt are attempted too and every attempted key gets a monitor; (R34c) the unlock function cancels the lock context before it waits for the keys to be released, and a monitor deletes its key only after its loop ended (context done, extension failed or locker closed); (R34d) once a majority of monitors have ended the lock context is cancelled before anything else happens, and `done` is closed exactly when all of them ended; (R34e) extension and deletion use the holder's own random value and key.",
+		Explanation: "Decides client-side necessary conditions only: (R34a) the number of keys is 2*majority-1 for the very majority that the counters are compared with, so two holders cannot both own a majority; (R34b) try reports success only when the deadline timer had not fired and fewer than a majority of acquisitions failed, the acquisition loop runs while both counters are below the majority and every iteration bumps exactly one of them by 1, the remaining keys up to totalcnt are attempted too and every attempted key gets a monitor; (R34c) the unlock function cancels the lock context before it waits for the keys to be released, and a monitor deletes its key only after its loop ended (context done, extension failed or locker closed); (R34d) once a majority of monitors have ended the lock context is cancelled before anything else happens, and `done` is closed exactly when all of them ended; (R34e) extension and deletion use the holder's own random value and key; (R34f) a failed extension ends the monitor: nothing inside the monitor loop resets the loop-carried error to nil; (R34g) the gate's wake-up token is consumed only by the blocking wait of WithContext, never drained between a failed try and the wait.",
 		NotDecided:  "mutual exclusion itself (server-side SET NX / scripts, key expiry against wall-clock time, cross-process schedules), promptness of loss detection, wake-up of WithContext waiters."}
 }
 
@@ -303,6 +303,85 @@ func runC34(r *Report) {
 		}
 		r.Ob("R34d", monitor, "cancel-when-majority-of-monitors-ended", monitor.Pos(), okD, "every ended monitor counts once; when the count reaches the majority the lock context is cancelled before anything else")
 		r.Ob("R34d", monitor, "done-closed-when-all-ended", monitor.Pos(), closeOK, "`done` is closed by the monitor that brings the count to totalcnt")
+	}
+	// R34f: a failed extension ends the monitor. The loop-carried error of the monitor loop is fed
+	// only by the results of extend / ctx.Err / ErrLockerClosed; no path inside the loop resets it to
+	// nil (which would keep a holder alive that can no longer extend its keys).
+	if monitor != nil {
+		n := 0
+		for _, h := range monitor.Blocks {
+			if !IsLoopHeader(h) {
+				continue
+			}
+			for _, in := range h.Instrs {
+				ph, ok := in.(*ssa.Phi)
+				if !ok {
+					break
+				}
+				if shortType(ph.Type()) != "error" {
+					continue
+				}
+				n++
+				seen := map[ssa.Value]bool{}
+				swallowed := ""
+				var walk func(v ssa.Value, fromInside bool)
+				walk = func(v ssa.Value, fromInside bool) {
+					if seen[v] {
+						return
+					}
+					seen[v] = true
+					if q, isphi := v.(*ssa.Phi); isphi {
+						for i, e := range q.Edges {
+							inside := h.Dominates(q.Block().Preds[i]) && (q != ph || h.Dominates(q.Block().Preds[i]))
+							if q == ph && !h.Dominates(q.Block().Preds[i]) {
+								inside = false
+							}
+							walk(e, inside)
+						}
+						return
+					}
+					if IsNilConst(v) && fromInside {
+						swallowed = "the loop-carried error is reset to nil inside the monitor loop"
+					}
+				}
+				walk(ph, false)
+				r.ObSite("R34f", SiteOf(in), "failed-extension-ends-the-monitor", swallowed == "", "the monitor loop's error is only ever replaced by the result of an extension, the context error or ErrLockerClosed; "+swallowed)
+			}
+		}
+		r.Anchor("R34f", "monitor loop error variable", n >= 1)
+	}
+	// R34g: the wake-up token of a gate is consumed only by the blocking wait of WithContext
+	if wc := r.FnAnchor("R34g", L+"(*locker).WithContext"); wc != nil {
+		isGateCh := func(v ssa.Value) bool {
+			d := DescDeep(v)
+			return strings.HasSuffix(d, ".ch") && strings.Contains(shortType(v.Type()), "chan struct{}")
+		}
+		n := 0
+		for _, b := range wc.Blocks {
+			for _, in := range b.Instrs {
+				switch x := in.(type) {
+				case *ssa.Select:
+					for _, st := range x.States {
+						if st.Dir == 2 && isGateCh(st.Chan) {
+							n++
+							done := false
+							for _, st2 := range x.States {
+								if c, isc := st2.Chan.(*ssa.Call); isc && CalleeName(c) == "iface:context.Context.Done" {
+									done = true
+								}
+							}
+							r.ObSite("R34g", SiteOf(in), "wake-up-consumed-only-by-the-wait", x.Blocking && done, "the gate's wake-up token is received only in the blocking wait (together with the caller's context); a non-blocking drain after a failed try can discard the release notification that arrived meanwhile")
+						}
+					}
+				case *ssa.UnOp:
+					if x.Op == token.ARROW && isGateCh(x.X) {
+						n++
+						r.ObSite("R34g", SiteOf(in), "wake-up-consumed-only-by-the-wait", false, "the gate's wake-up token is received outside the wait")
+					}
+				}
+			}
+		}
+		r.Anchor("R34g", "WithContext: wait on the gate", n == 1)
 	}
 	_ = p
 }
